@@ -221,6 +221,11 @@ impl TimeOfDayLiteral {
     pub fn hmsm(&self) -> (u8, u8, u8, u32) {
         self.value.as_hms_micro()
     }
+
+    /// Returns the hour, minute, second and nanosecond from the literal.
+    pub fn hms_nano(&self) -> (u8, u8, u8, u32) {
+        self.value.as_hms_nano()
+    }
 }
 
 // See section 2.2.3
@@ -265,5 +270,10 @@ impl DateAndTimeLiteral {
     /// Returns the hour, minute, second and millisecond from the literal.
     pub fn hmsm(&self) -> (u8, u8, u8, u32) {
         self.value.as_hms_micro()
+    }
+
+    /// Returns the hour, minute, second and nanosecond from the literal.
+    pub fn hms_nano(&self) -> (u8, u8, u8, u32) {
+        self.value.as_hms_nano()
     }
 }
